@@ -569,6 +569,26 @@ def r2b_name_is_an_identifier(ctx):
                 rep.ob('C19.R2b', ctx.loc(f, c), ctx.src(c, 60), ok, 'dots become underscores' if ok else
                        'the arguments of replace are swapped: underscores become dots, the dots of the module path stay, and the generated `def` line is a syntax error', anchor=f.qualname)
     rep.floor('C19.R2b', 'dot replacements in the generated function name', n, 1)
+    # ... for EVERY dotted component that goes into the name
+    fcv = ctx.func(CONV)
+    hosts = [fcv] + [h for h in ctx.prog.funcs.values() if h.module is fcv.module and h.cls is None and h is not fcv and 'name' in h.name]
+    for h in hosts:
+        for x in walk_scope(h.node):
+            if isinstance(x, ast.Assign) and len(x.targets) == 1 and isinstance(x.targets[0], ast.Name) and 'name' in x.targets[0].id and \
+                    any(isinstance(y, ast.Attribute) and y.attr in ('modname', 'callname') for y in ast.walk(x.value)) and any(isinstance(y, ast.Constant) and y.value == 'test' or
+                                                                                                                            (isinstance(y, ast.Constant) and isinstance(y.value, str) and y.value.startswith('test_')) for y in ast.walk(x.value)):
+                for comp in [y for y in ast.walk(x.value) if isinstance(y, ast.Attribute) and y.attr in ('modname', 'callname')]:
+                    cur, covered = comp, False
+                    while cur is not None and cur is not x:
+                        par = getattr(cur, '_parent', None)
+                        if isinstance(par, ast.Attribute) and par.attr == 'replace' and isinstance(getattr(par, '_parent', None), ast.Call):
+                            c = par._parent
+                            if len(c.args) == 2 and isinstance(c.args[0], ast.Constant) and c.args[0].value == '.':
+                                covered = True
+                        cur = par
+                    rep.ob('C19.R2b', ctx.loc(h, comp), 'dots of %s in the generated name' % ctx.src(comp), covered,
+                           'replaced by underscores' if covered else
+                           'the dotted %s goes into the `def` name without its dots replaced: for a module inside a package the dump emits `def test_pkg.mod_f_0():`' % comp.attr, anchor=h.qualname)
 
 
 # ---------------------------------------------------------------------------
@@ -577,6 +597,7 @@ from ..selftest import fire, silent      # noqa: E402
 RN = 'xdoctest/runner.py'
 US = 'xdoctest/utils/util_str.py'
 VARIANTS = [
+    fire('module-path-dots-kept-in-the-name', 'C19.R2b', (RN, "example.modname.replace('.', '_') + '_'", "example.modname + '_'")),
     fire('function-name-keeps-its-dots', 'C19.R2b', (RN, "example.modname.replace('.', '_')", "example.modname.replace('_', '.')")),
     fire('star-import-removal-only-when-switched-off', 'C19.R4', (RN, "            if dump_config['remove_import_star']:\n", "            if not dump_config['remove_import_star']:\n")),
     fire('star-import-kept-after-the-test', 'C19.R4', (RN, "                    if ' import *' in line:\n                        continue\n", "                    if ' import *' in line:\n                        pass\n")),
